@@ -37,7 +37,13 @@ def main():
 
     rep = Report(pid, args.tier, seed)
     try:
-        return mod.run(rep, args.tier, seed)
+        rc = mod.run(rep, args.tier, seed)
+        # the replay path is part of the machinery: every sample case recorded in the evidence is pushed through
+        # replay() (its verdict is ignored here - only a crash of the replay code matters)
+        for smp in rep.samples:
+            if isinstance(smp, dict) and 'kind' in smp:
+                mod.replay(json.loads(json.dumps(smp)))
+        return rc
     except SystemExit:
         raise
     except BaseException:
